@@ -466,7 +466,7 @@ package websocket
 //@ ghostfield Conn.g_out int
 //@ ghostfield Conn.g_wst bool
 
-//@ pred WBuf(w) := w.c != nil && w.c.conn != nil && !held(w.c.mu) && region(w.c.writeBuf) > 0 && live(w.c.writeBuf) && 14 <= w.pos && w.pos <= len(w.c.writeBuf) && 139 <= len(w.c.writeBuf) && off(w.c.writeBuf) == 0 && \
+//@ pred WBuf(w) := w.c != nil && w.c.conn != nil && !held(w.c.mu) && !w.c.isWriting && region(w.c.writeBuf) > 0 && live(w.c.writeBuf) && 14 <= w.pos && w.pos <= len(w.c.writeBuf) && 139 <= len(w.c.writeBuf) && off(w.c.writeBuf) == 0 && \
 //@     w.c.g_out >= 0 && w.c.g_acc == w.c.g_out + (w.pos - 14) && (isControlT(w.frameType) || isDataT(w.frameType) || w.frameType == 0) && \
 //@     iff(w.frameType == 0, w.c.g_wst) && imp(w.compress, isDataT(w.frameType) && w.c.newCompressionWriter != nil)
 //@ pred WData(w) := forall(j, 14, w.pos, w.c.writeBuf[j] == w.c.g_app[w.c.g_out + j - 14])
@@ -499,6 +499,7 @@ package websocket
 
 //@ func (*messageWriter).flushFrame
 //@ tags C01 C02 C09 C10 C11 C20
+//@ ensures[writing] !w.c.isWriting
 //@ cover write C11.oneframe
 //@ assert at call:write#1[C11.oneframe]: arg0 == w.c && same(arg4, extra)
 //@ mode int bv
@@ -548,7 +549,7 @@ package websocket
 //   compression writer, whose g_inner ghost names it).
 //@ ghostfield io.WriteCloser.g_inner ref
 //@ pred curW(c) := ite(c.writer == nil, asPtr(nilref(), "*messageWriter"), ite(typeIs(c.writer, "*messageWriter"), asType(c.writer, "*messageWriter"), asPtr(c.writer.g_inner, "*messageWriter")))
-//@ pred WConn(c) := c.conn != nil && !held(c.mu) && imp(c.writePool != nil, c.writeBufSize >= 139) && 0 - 2 <= c.compressionLevel && c.compressionLevel <= 9 && c.g_acc >= 0 && c.g_out >= 0 && \
+//@ pred WConn(c) := c.conn != nil && !held(c.mu) && !c.isWriting && imp(c.writePool != nil, c.writeBufSize >= 139) && 0 - 2 <= c.compressionLevel && c.compressionLevel <= 9 && c.g_acc >= 0 && c.g_out >= 0 && \
 //@     ((region(c.writeBuf) == 0 && len(c.writeBuf) == 0 && c.writePool != nil) || (region(c.writeBuf) > 0 && len(c.writeBuf) >= 139 && off(c.writeBuf) == 0 && live(c.writeBuf))) && \
 //@     imp(c.g_wst && c.writer == nil, c.writeErr != nil)
 //@ pred WOpen(c) := imp(c.writer != nil, curW(c) != nil && ref(curW(c)) < alloc() && curW(c).c == c && curW(c).err == nil && WBuf(curW(c)))
@@ -563,6 +564,7 @@ package websocket
 
 //@ func (*messageWriter).ncopy
 //@ tags C01 C02 C10 C20
+//@ ensures[writing] !w.c.isWriting
 //@ results n err
 //@ requires w.err == nil && WBuf(w) && WData(w) && max > 0
 //@ modifies MsgMods(w)
@@ -579,6 +581,7 @@ package websocket
 
 //@ func (*messageWriter).Write
 //@ tags C01 C02 C10 C20
+//@ ensures[writing] imp(old(w.err) == nil, !w.c.isWriting) && (!w.c.isWriting || old(w.c.isWriting))
 //@ results n err
 //@ let c := w.c
 //@ requires imp(w.err == nil, WBuf(w) && region(p) != region(w.c.writeBuf) && live(p)) && imp(w.err == nil, WData(w))
@@ -606,6 +609,7 @@ package websocket
 
 //@ func (*messageWriter).WriteString
 //@ tags C01 C02 C10
+//@ ensures[writing] imp(old(w.err) == nil, !w.c.isWriting) && (!w.c.isWriting || old(w.c.isWriting))
 //@ results n err
 //@ let c := w.c
 //@ requires imp(w.err == nil, WBuf(w)) && imp(w.err == nil, WData(w))
@@ -626,6 +630,7 @@ package websocket
 // message (ghost: appended to g_app at g_acc) the moment Read returns them.
 //@ func (*messageWriter).ReadFrom
 //@ tags C01 C02 C10 C20
+//@ ensures[writing] imp(old(w.err) == nil, !w.c.isWriting) && (!w.c.isWriting || old(w.c.isWriting))
 //@ results nn err
 //@ let c := w.c
 //@ requires imp(w.err == nil, WBuf(w)) && imp(w.err == nil, WData(w))
@@ -646,6 +651,7 @@ package websocket
 
 //@ func (*messageWriter).Close
 //@ tags C01 C02 C09 C10 C20
+//@ ensures[writing] imp(old(w.err) == nil, !w.c.isWriting) && (!w.c.isWriting || old(w.c.isWriting))
 //@ let c := w.c
 //@ requires imp(w.err == nil, WBuf(w)) && imp(w.err == nil, WData(w))
 //@ modifies MsgMods(w)
@@ -670,6 +676,7 @@ package websocket
 //@ let mw := asPtr(wc.g_inner, "*messageWriter")
 //@ requires mw != nil && imp(mw.err == nil, WBuf(mw))
 //@ modifies MsgMods(mw)
+//@ ensures !mw.c.isWriting || old(mw.c.isWriting)
 //@ ensures imp(old(mw.c.writeErr) != nil, mw.c.writeErr == old(mw.c.writeErr))
 //@ ensures !held(mw.c.mu)
 //@ ensures imp(old(mw.err) != nil, mw.c.conn.g_wn == old(mw.c.conn.g_wn) && mw.err == old(mw.err) && BufKept(mw.c) && mw.c.writer == old(mw.c.writer) && mw.c.g_wst == old(mw.c.g_wst) && mw.c.g_out == old(mw.c.g_out) && mw.c.g_acc == old(mw.c.g_acc))
@@ -687,6 +694,7 @@ package websocket
 //@ let mw := asPtr(wc.g_inner, "*messageWriter")
 //@ requires mw != nil && imp(mw.err == nil, WBuf(mw))
 //@ modifies MsgMods(mw)
+//@ ensures !mw.c.isWriting || old(mw.c.isWriting)
 //@ ensures imp(old(mw.c.writeErr) != nil, mw.c.writeErr == old(mw.c.writeErr))
 //@ ensures imp(err == nil, n == len(p) && mw.err == nil && WBuf(mw) && BufKept(mw.c) && mw.c.g_acc >= old(mw.c.g_acc))
 //@ ensures imp(err != nil && old(mw.err) == nil, Ended(mw.c, mw) && mw.c.writeErr != nil)
@@ -879,6 +887,7 @@ package websocket
 //@ let mw := wOf(asIface(enc.g_w, "io.WriteCloser"))
 //@ requires mw != nil && imp(mw.err == nil, WBuf(mw))
 //@ modifies MsgMods(mw)
+//@ ensures !mw.c.isWriting || old(mw.c.isWriting)
 //@ ensures !held(mw.c.mu) && mw.c.g_out >= 0 && mw.c.g_acc >= old(mw.c.g_acc) && imp(old(mw.c.writeErr) != nil, mw.c.writeErr == old(mw.c.writeErr))
 //@ ensures imp(mw.err == nil, WBuf(mw) && BufKept(mw.c) && mw.c.writer == old(mw.c.writer))
 //@ ensures imp(mw.err == nil, WData(mw))
@@ -1150,6 +1159,9 @@ package websocket
 
 //@ func (*Conn).WritePreparedMessage
 //@ tags C09 C10 C19
+//@ requires !c.isWriting
+//@ modifies c.isWriting, WireMods(c)
+//@ ensures[C19.writing] !c.isWriting
 //@ requires !held(c.mu) && c.conn != nil && pm != nil && pm.frames != nil && 0 - 2 <= c.compressionLevel && c.compressionLevel <= 9 && region(pm.data) >= 0 && region(pm.data) < alloc() && live(pm.data)
 //@ assert at call:frame#1[C19.key]: arg1.isServer == c.isServer && arg1.compressionLevel == c.compressionLevel && \
 //@     iff(arg1.compress, c.newCompressionWriter != nil && c.enableWriteCompression && isDataT(pm.messageType))
